@@ -51,6 +51,14 @@ func (c *c19) scalar(kind string, val []byte) {
 			err = p.WriteI32(int32(x))
 		case "i64":
 			err = p.WriteI64(x)
+		case "int8":
+			err = p.WriteInt(thrift.I08, int(x))
+		case "int16":
+			err = p.WriteInt(thrift.I16, int(x))
+		case "int32":
+			err = p.WriteInt(thrift.I32, int(x))
+		case "int64":
+			err = p.WriteInt(thrift.I64, int(x))
 		case "double":
 			err = p.WriteDouble(math.Float64frombits(uint64(x)))
 		case "string":
@@ -85,6 +93,9 @@ func (c *c19) scalar(kind string, val []byte) {
 		case "i64":
 			v, e := r.ReadI64()
 			err, rv = e, be8(v)
+		case "int8", "int16", "int32", "int64":
+			v, e := r.ReadInt(map[string]thrift.Type{"int8": thrift.I08, "int16": thrift.I16, "int32": thrift.I32, "int64": thrift.I64}[kind])
+			err, rv = e, be8(int64(v))
 		case "double":
 			v, e := r.ReadDouble()
 			err, rv = e, be8(int64(math.Float64bits(v)))
@@ -159,6 +170,23 @@ func (c *c19) hdrAt(kind string, a, b2, n int, name []byte, seq []byte, pre, tai
 				err = p.ModifyI32(pos, int32(n))
 			}
 		}
+		// the matching End call writes nothing
+		if err == nil {
+			switch kind {
+			case "field":
+				err = p.WriteFieldEnd()
+			case "list":
+				err = p.WriteListEnd()
+			case "set":
+				err = p.WriteSetEnd()
+			case "map":
+				err = p.WriteMapEnd()
+			case "msg":
+				err = p.WriteMessageEnd()
+			case "stop":
+				p.WriteStructBegin("S") // (writes nothing either)
+			}
+		}
 		ev["wst"] = st(err)
 		enc := append([]byte{}, p.Buf...)
 		ev["enc"] = B(enc)
@@ -200,6 +228,28 @@ func (c *c19) hdrAt(kind string, a, b2, n int, name []byte, seq []byte, pre, tai
 			rr["st"], rr["a"], rr["name"] = st(e), int(mt), B(nm)
 			s4 := be8(int64(sq))[4:]
 			rr["seq"] = B(s4)
+		}
+		// ... and the matching End call of the reader consumes nothing
+		if rr["st"] == "ok" {
+			var e2 error
+			switch kind {
+			case "field":
+				e2 = r.ReadFieldEnd()
+			case "list", "listpos":
+				e2 = r.ReadListEnd()
+			case "set":
+				e2 = r.ReadSetEnd()
+			case "map", "mappos":
+				e2 = r.ReadMapEnd()
+			case "stop":
+				_, e2 = r.ReadStructBegin()
+				if e2 == nil {
+					e2 = r.ReadStructEnd()
+				}
+			}
+			if e2 != nil {
+				rr["st"] = "err"
+			}
 		}
 		rr["n"] = r.Read
 	}()
@@ -408,6 +458,7 @@ func (c *c19) run(seed int64, n int, thorough bool, casesFile string) {
 		c.scalar("bool", be8(1))
 		for i := 0; i < 256; i++ {
 			c.scalar("byte", be8(int64(i)))
+			c.scalar("int8", be8(int64(i)))
 		}
 	})
 	step(func() {
@@ -417,6 +468,7 @@ func (c *c19) run(seed int64, n int, thorough bool, casesFile string) {
 		}
 		for i := -32768; i <= 32767; i += inc {
 			c.scalar("i16", be8(int64(i)))
+			c.scalar("int16", be8(int64(i)))
 		}
 		c.scalar("i16", be8(32767))
 	})
@@ -424,6 +476,8 @@ func (c *c19) run(seed int64, n int, thorough bool, casesFile string) {
 		for _, b := range bounds64() {
 			c.scalar("i32", be8(int64(int32(fromBE8(b)))))
 			c.scalar("i64", b)
+			c.scalar("int32", be8(int64(int32(fromBE8(b)))))
+			c.scalar("int64", b)
 			c.scalar("double", b)
 		}
 		for _, bits := range []uint64{0x7ff0000000000000, 0xfff0000000000000, 0x7ff8000000000001, 0x7ff0000000000001, 0x8000000000000000, 1, 0x000fffffffffffff, 0x0010000000000000, 0x7fefffffffffffff} {
